@@ -992,7 +992,10 @@ def built_priors(case, ts):
     allow_unary when the input has unary nodes; a fresh object on every call"""
     import tsdate
     kind = case.get("prior_kind", "built")
-    kw = dict(timepoints=case.get("prior_timepoints", 8), allow_unary=bool(case.get("allow_unary")))
+    tp = case.get("prior_timepoints", 8)
+    if isinstance(tp, (list, tuple)):
+        tp = np.array(tp, dtype=float)       # explicit time slices
+    kw = dict(timepoints=tp, allow_unary=bool(case.get("allow_unary")))
     if kind == "built-approx":
         kw.update(approximate_priors=True, approx_prior_size=case.get("approx_prior_size", 12))
     if kind == "built-gamma":
